@@ -73,7 +73,7 @@ pub fn run(pid: &'static str, thorough: bool) -> i32 {
             // U1 histories through stateright
             let full = hist::env_full();
             let core = hist::env_core();
-            let (dfull, dcore) = if thorough { (4, 7) } else { (3, 5) };
+            let (dfull, dcore) = if thorough { (4, 6) } else { (3, 5) };
             let t0 = std::time::Instant::now();
             let a = hist::explore_layers(full, pid, dfull);
             eprintln!("[timing] U1 full alphabet depth {dfull}: {} states {} transitions in {:.1}s", a.states, a.transitions, t0.elapsed().as_secs_f64());
